@@ -25,6 +25,9 @@ func staticObligations(p *Program, prop, verif string) ([]*Obligation, []string)
 	}
 	if prop == "C16" {
 		out = append(out, formatConstants(p)...)
+		eo, as := errArgCounts(p)
+		out = append(out, eo...)
+		assumed = append(assumed, as...)
 	}
 	if prop == "C09" {
 		mo, as := mapRangeObligations(p, verif)
@@ -487,6 +490,159 @@ func formatConstants(p *Program) []*Obligation {
 		}
 	}
 	return out
+}
+
+// ---- C16: every diagnostic is built with as many arguments as its format has placeholders ---------------------------
+// errs.f (under contract: errs.f#panic-allowed / #nopanic-when) raises the "runtime failure" code exactly when the code has
+// no entry in errs.errorFormat or the number of arguments differs from the number of '%' in the entry. One obligation per
+// call `<constant code>.F(args...)` in non-test code of the module: the code has an entry and the argument count equals its
+// placeholder count, so that call can only produce the designed diagnostic. Calls whose code is not a constant are listed as
+// assumptions.
+func errArgCounts(p *Program) ([]*Obligation, []string) {
+	var out []*Obligation
+	var assumed []string
+	pkg := p.pkgs[modPrefix+"errs"]
+	if pkg == nil {
+		return []*Obligation{{Name: "errs.errorFormat#table:placeholders", Kind: "table", Status: "error", RawOut: "package errs not found", Solver: "const-eval"}}, nil
+	}
+	g, _ := pkg.Members["errorFormat"].(*ssa.Global)
+	init := pkg.Func("init")
+	counts := map[int64]int{}
+	if g != nil && init != nil {
+		var mapVal ssa.Value
+		for _, b := range init.Blocks {
+			for _, in := range b.Instrs {
+				if st, ok := in.(*ssa.Store); ok && st.Addr == ssa.Value(g) {
+					mapVal = st.Val
+				}
+			}
+		}
+		for _, b := range init.Blocks {
+			for _, in := range b.Instrs {
+				mu, ok := in.(*ssa.MapUpdate)
+				if !ok || mu.Map != mapVal {
+					continue
+				}
+				k, ok1 := mu.Key.(*ssa.Const)
+				c, ok2 := mu.Value.(*ssa.Const)
+				if !ok1 || !ok2 || k.Value == nil || c.Value == nil || c.Value.Kind() != constant.String {
+					continue
+				}
+				if kv, exact := constant.Int64Val(k.Value); exact {
+					counts[kv] = strings.Count(constant.StringVal(c.Value), "%")
+				}
+			}
+		}
+	}
+	if len(counts) == 0 || g == nil || p.globalWrittenOutsideInit(g) != "" {
+		return []*Obligation{{Name: "errs.errorFormat#table:placeholders", Kind: "table", Status: "error", RawOut: "errs.errorFormat could not be evaluated as a constant table", Solver: "const-eval", Fn: "errs (package initialiser)"}}, nil
+	}
+	isF := func(fn *ssa.Function) bool {
+		return fn != nil && fn.Pkg != nil && fn.Pkg.Pkg.Path() == modPrefix+"errs" && fn.Name() == "F" && fn.Signature.Recv() != nil
+	}
+	seen := map[*ssa.Function]bool{}
+	var visit func(fn *ssa.Function)
+	visit = func(fn *ssa.Function) {
+		if fn == nil || seen[fn] || fn.Blocks == nil || fn.Synthetic != "" {
+			return
+		}
+		seen[fn] = true
+		type site struct {
+			pos  token.Pos
+			call *ssa.CallCommon
+		}
+		var sites []site
+		for _, b := range fn.Blocks {
+			for _, in := range b.Instrs {
+				call, ok := in.(ssa.CallInstruction)
+				if !ok {
+					continue
+				}
+				if cc := call.Common(); isF(cc.StaticCallee()) && len(cc.Args) == 2 {
+					sites = append(sites, site{in.Pos(), cc})
+				}
+			}
+		}
+		sort.Slice(sites, func(i, j int) bool { return sites[i].pos < sites[j].pos })
+		for i, st := range sites {
+			name := fmt.Sprintf("%s#errargs:%d", shortFn(fn), i+1)
+			code, ok := st.call.Args[0].(*ssa.Const)
+			nargs := -1
+			switch a := st.call.Args[1].(type) {
+			case *ssa.Const:
+				if a.IsNil() {
+					nargs = 0
+				}
+			case *ssa.Slice:
+				if al, ok := a.X.(*ssa.Alloc); ok && a.Low == nil && a.High == nil {
+					if pt, ok := al.Type().Underlying().(*types.Pointer); ok {
+						if at, ok := pt.Elem().Underlying().(*types.Array); ok {
+							nargs = int(at.Len())
+						}
+					}
+				}
+			}
+			if !ok || code.Value == nil || nargs < 0 {
+				if shortFn(fn) != "errs.(Code).F" {
+					assumed = append(assumed, fmt.Sprintf("%s at %s: the error code or the argument list of this .F(...) call is not a constant; that it matches its format is not checked", name, p.fset.Position(st.pos)))
+				}
+				continue
+			}
+			o := &Obligation{Name: name, Kind: "table", Fn: shortFn(fn), Solver: "const-eval", Pos: p.fset.Position(st.pos),
+				Desc: "this diagnostic is built with exactly as many arguments as its format in errs.errorFormat has placeholders (so errs.f cannot answer with the runtime-failure code)"}
+			cv, _ := constant.Int64Val(code.Value)
+			want, has := counts[cv]
+			switch {
+			case !has:
+				o.Status = "sat"
+				o.RawOut = fmt.Sprintf("error code %d has no entry in errs.errorFormat", cv)
+			case want != nargs:
+				o.Status = "sat"
+				o.RawOut = fmt.Sprintf("error code %d: the format has %d placeholders, the call passes %d arguments", cv, want, nargs)
+			default:
+				o.Status = "unsat"
+				o.RawOut = fmt.Sprintf("code %d: %d placeholders, %d arguments", cv, want, nargs)
+			}
+			if o.Status == "sat" {
+				o.Model = o.RawOut
+			}
+			out = append(out, o)
+		}
+		for _, an := range fn.AnonFuncs {
+			visit(an)
+		}
+	}
+	var paths []string
+	for path := range p.pkgs {
+		paths = append(paths, path)
+	}
+	sort.Strings(paths)
+	for _, path := range paths {
+		if !strings.HasPrefix(path, modPath) || strings.Contains(path, "/internal/cmd") {
+			continue
+		}
+		pkg := p.pkgs[path]
+		var names []string
+		for n := range pkg.Members {
+			names = append(names, n)
+		}
+		sort.Strings(names)
+		for _, n := range names {
+			switch t := pkg.Members[n].(type) {
+			case *ssa.Function:
+				visit(t)
+			case *ssa.Type:
+				for _, tt := range []types.Type{t.Type(), types.NewPointer(t.Type())} {
+					ms := p.prog.MethodSets.MethodSet(tt)
+					for i := 0; i < ms.Len(); i++ {
+						visit(p.prog.MethodValue(ms.At(i)))
+					}
+				}
+			}
+		}
+	}
+	sort.Strings(assumed)
+	return out, assumed
 }
 
 // readsOnlyTable: every map lookup in fn is a lookup in the package-level table of that name, and there is one
